@@ -6,4 +6,4 @@ for c in C01 C02 C03 C04 C05 C06 C07 C08 C09 C10 C11 C12 C13 C14 C15 C16 C17 C18
   ./check $c --tier quick > /tmp/refres/$2.$c.log 2>&1
   echo "$2 $c exit=$? $(grep -c '^VIOLATION' /tmp/refres/$2.$c.log) $(grep 'tier=' /tmp/refres/$2.$c.log | tail -1 | cut -c1-140)"
 done
-git -C /repo checkout -- .
+git -C /repo checkout -- . && git -C /repo clean -fdq src
